@@ -14,6 +14,11 @@ class Rejected(Exception):
     """The real constructor refused the design (a documented refusal, not a verdict)."""
 
 
+class InternalError(IndexError):
+    """Compiling an accepted design raised: C08's subject.  (Subclass of IndexError so that every caller that already
+    sets internal errors aside handles it the same way.)"""
+
+
 class Comp:
     pass
 
@@ -39,12 +44,15 @@ def compile_design(desc, need_ref=True):
         # for properties about accepted designs
         raise Rejected(f'constructor-internal {type(e).__name__}: {e}')
     comp.block = comp.built.block
-    with quiet():
-        comp.clauses = compiled_clauses(comp.block)
-        comp.errors = bool(comp.block.show_errors())
-    comp.support = comp.block.variables_per_sample()
-    comp.T_lib = comp.block.trials_per_sample()
-    comp.vt = variable_table(comp.block)
+    try:
+        with quiet():
+            comp.clauses = compiled_clauses(comp.block)
+            comp.errors = bool(comp.block.show_errors())
+        comp.support = comp.block.variables_per_sample()
+        comp.T_lib = comp.block.trials_per_sample()
+        comp.vt = variable_table(comp.block)
+    except Exception as e:
+        raise InternalError(f'{type(e).__name__}: {e}')
     comp.z = Z()
     comp._closure = None
     return comp
